@@ -219,6 +219,61 @@ func C08(cfg Cfg) int {
 			}
 			flush()
 		}
+		// Committee-style batches: many validators attest the SAME data, some of them are refused by slashing
+		// protection (they already signed a higher target); every signature that is returned must still verify.
+		for bi, n := range []int{3, 4, 9, 16, 33, 64} {
+			for _, k := range []int{1, 2, 3} {
+				procs := c08Procs[(bi+k+round)%len(c08Procs)]
+				runtime.GOMAXPROCS(procs)
+				env.FreshKeys(n)
+				base := uint64(1000 + r.Intn(1000))
+				templates := make([]*AttCase, k)
+				for j := range templates {
+					templates[j] = wfAtt(r, env, 0)
+					templates[j].Data.Source.Epoch, templates[j].Data.Target.Epoch = base, base+1
+				}
+				refusedKeys := map[int]bool{}
+				for i := 0; i < n; i++ {
+					if r.Intn(4) == 0 {
+						// This validator has already signed beyond the batch's target.
+						pre := wfAtt(r, env, i)
+						pre.Data.Source.Epoch, pre.Data.Target.Epoch = base+5, base+6
+						if v, _ := env.SignAtt(ViaService, pre); v == core.ResultSucceeded {
+							refusedKeys[i] = true
+						}
+					}
+				}
+				cs := make([]*AttCase, n)
+				for i := range cs {
+					t := templates[i*k/n]
+					d := *t.Data
+					cs[i] = &AttCase{Key: env.Keys[i], Name: env.Names[i], Addr: RandAddr(r), Data: &d}
+				}
+				via := Via((bi + k) % 2)
+				res, sigs := env.SignAtts(via, cs)
+				run.Eval(n)
+				cell := fmt.Sprintf("same-data atts/%s n=%d distinct-data=%d P=%d", viaName(via), n, k, procs)
+				if len(res) != n || len(sigs) != n {
+					run.Violate(fmt.Sprintf("%s: %d requests but %d results / %d signatures", cell, n, len(res), len(sigs)), cell)
+					continue
+				}
+				for i := range res {
+					if refusedKeys[i] {
+						run.Count("same_data_refused_entries", 1)
+						if res[i] == core.ResultSucceeded {
+							run.Violate(fmt.Sprintf("%s: entry %d was signed although its validator had already signed a higher target", cell, i), cell)
+						}
+						continue
+					}
+					if res[i] == core.ResultSucceeded {
+						jobs = append(jobs, sigJob{pub: env.Keys[i].Pub, root: cs[i].SigningRoot(), sig: sigs[i], desc: fmt.Sprintf("%s entry %d (refused entries: %v)", cell, i, len(refusedKeys))})
+						run.Count("same_data_signatures", 1)
+					}
+				}
+				run.Distinct(cell)
+			}
+		}
+		flush()
 		// Singles.
 		env.FreshKeys(8)
 		for k := 0; k < cfg.N(120, 400); k++ {
